@@ -33,9 +33,71 @@ class Subst(ast.NodeTransformer):
         return n
 
 
+class Scope:
+    """What a function body may refer to besides its parameters: methods of its own class and functions of its
+    module (inlined when called, so that extracting a helper changes nothing), and module-level constants."""
+    CONST_NAME = __import__('re').compile(r'^_?[A-Z][A-Z0-9_]*$')
+
+    def __init__(self, mod, cls=None):
+        self.cls = cls
+        self.methods = {n.name: n for n in (cls.body if cls is not None else []) if isinstance(n, ast.FunctionDef)}
+        self.functions = {n.name: n for n in mod.body if isinstance(n, ast.FunctionDef)}
+        counts = {}
+        for n in ast.walk(mod):
+            if isinstance(n, ast.Name) and isinstance(n.ctx, (ast.Store, ast.Del)):
+                counts[n.id] = counts.get(n.id, 0) + 1
+            if isinstance(n, (ast.Global, ast.Nonlocal)):
+                for x in n.names:
+                    counts[x] = counts.get(x, 0) + 2
+        self.consts = {}
+        for n in mod.body:
+            if isinstance(n, ast.Assign) and len(n.targets) == 1 and isinstance(n.targets[0], ast.Name) and \
+                    self.CONST_NAME.match(n.targets[0].id) and counts.get(n.targets[0].id) == 1 and \
+                    self.simple(n.value):
+                self.consts[n.targets[0].id] = n.value
+
+    def simple(self, v):
+        if isinstance(v, ast.Constant):
+            return True
+        if isinstance(v, (ast.Tuple, ast.List, ast.Set)):
+            return all(self.simple(e) for e in v.elts)
+        if isinstance(v, ast.Call) and ast.unparse(v.func) == 'frozenset' and len(v.args) == 1 and not v.keywords:
+            return self.simple(v.args[0])
+        if isinstance(v, ast.Attribute):
+            return self.simple(v.value)
+        if isinstance(v, ast.Name):
+            return v.id in self.consts or v.id in ('cfg',)
+        return False
+
+    def is_method(self, fn):
+        return self.methods.get(fn.name) is fn
+
+    def lookup(self, func):
+        if isinstance(func, ast.Attribute) and isinstance(func.value, ast.Name):
+            if func.value.id in ('self', 'cls') or (self.cls is not None and func.value.id == self.cls.name):
+                return self.methods.get(func.attr)
+            return None
+        if isinstance(func, ast.Name):
+            return self.functions.get(func.id)
+        return None
+
+    def subst_consts(self, node, env):
+        consts = self.consts
+
+        class C(ast.NodeTransformer):
+            def visit_Name(s2, n):
+                if isinstance(n.ctx, ast.Load) and n.id in consts and n.id not in env:
+                    v = copy.deepcopy(consts[n.id])
+                    if isinstance(v, ast.Call):      # frozenset((...)) -> its elements, for membership tests
+                        v = v.args[0]
+                    return s2.visit(v)
+                return n
+        return C().visit(node)
+
+
 class Fn:
     def __init__(self, coq_name, atoms, rets, raises, ignore=(), effectful=(), raising=None,
-                 fall_off='None'):
+                 fall_off='None', scope=None):
         self.coq_name = coq_name
         self.atoms = atoms          # text -> index
         self.rets = rets            # text -> tag
@@ -44,9 +106,120 @@ class Fn:
         self.effectful = set(effectful)   # atom texts evaluated at binding
         self.raising = raising or {}      # atom text -> exception class name it may raise
         self.fall_off = fall_off
+        self.scope = scope                # Scope: helpers of the same class / module that may be inlined, constants
+        self.depth = 0
+        self.fresh = 0
 
     def sub(self, node, env):
-        return ast.fix_missing_locations(Subst(env).visit(copy.deepcopy(node)))
+        n = ast.fix_missing_locations(Subst(env).visit(copy.deepcopy(node)))
+        if self.scope is not None:
+            n = ast.fix_missing_locations(self.scope.subst_consts(n, env))
+        return n
+
+    # ---- helpers (same-class methods, module functions): inlined, never trusted
+    def known_text(self, text):
+        return text in self.atoms or text in self.effectful or text in self.rets or \
+            (text + '/ok') in self.atoms or (text + '/truthy') in self.rets
+
+    def helper_of(self, call):
+        """the FunctionDef a call node refers to, when it is an inlinable helper that the atom map
+        does not already know as an opaque fact"""
+        if self.scope is None or not isinstance(call, ast.Call):
+            return None
+        if self.known_text(ast.unparse(call)):
+            return None
+        return self.scope.lookup(call.func)
+
+    def contains_helper(self, node):
+        for n in ast.walk(node):
+            if isinstance(n, ast.Call) and self.helper_of(n) is not None:
+                return True
+        return False
+
+    def bind(self, fn, call):
+        """parameter name -> argument node (already substituted in the caller's environment)"""
+        a = fn.args
+        if a.vararg or a.kwarg or a.posonlyargs:
+            raise Refuse('%s: helper %s has a signature that is not inlined' % (self.coq_name, fn.name))
+        params = [x.arg for x in a.args]
+        static = any(ast.unparse(d) == 'staticmethod' for d in fn.decorator_list)
+        is_method = self.scope.is_method(fn)
+        if is_method and not static:
+            if any(ast.unparse(d) == 'classmethod' for d in fn.decorator_list):
+                params = params[1:]
+            elif params and params[0] == 'self':
+                params = params[1:]
+            else:
+                raise Refuse('%s: helper %s has no self' % (self.coq_name, fn.name))
+        if any(isinstance(x, ast.Starred) for x in call.args) or any(k.arg is None for k in call.keywords):
+            raise Refuse('%s: helper %s called with * or **' % (self.coq_name, fn.name))
+        env = {}
+        if len(call.args) > len(params):
+            raise Refuse('%s: too many arguments for helper %s' % (self.coq_name, fn.name))
+        for p, v in zip(params, call.args):
+            env[p] = v
+        for k in call.keywords:
+            if k.arg not in params or k.arg in env:
+                raise Refuse('%s: bad keyword %s for helper %s' % (self.coq_name, k.arg, fn.name))
+            env[k.arg] = k.value
+        defaults = dict(zip(params[len(params) - len(a.defaults):], a.defaults)) if a.defaults else {}
+        for p in params:
+            if p not in env:
+                if p in defaults:
+                    env[p] = defaults[p]
+                else:
+                    raise Refuse('%s: helper %s misses argument %s' % (self.coq_name, fn.name, p))
+        for kw, d in zip(a.kwonlyargs, a.kw_defaults):
+            raise Refuse('%s: helper %s has keyword-only parameters' % (self.coq_name, fn.name))
+        return env
+
+    def inline(self, fn, call_sub, k_value):
+        """run helper fn on the (substituted) call; k_value(value node or None) continues the caller"""
+        if self.depth > 6:
+            raise Refuse('%s: helper nesting too deep at %s' % (self.coq_name, fn.name))
+        env_h = self.bind(fn, call_sub)
+        self.depth += 1
+        try:
+            return self.block(fn.body, env_h, lambda e: k_value(None), k_value)
+        finally:
+            self.depth -= 1
+
+    def hoist(self, expr, env):
+        """(temp name, call node, rewritten expr) for the first helper call evaluated unconditionally inside
+        expr, or None.  Calls under and/or/if-expressions/lambdas/comprehensions are never hoisted."""
+        class Finder(ast.NodeTransformer):
+            def __init__(s2):
+                s2.found = None
+
+            def generic_visit(s2, node):
+                if s2.found is not None:
+                    return node
+                if isinstance(node, (ast.BoolOp, ast.IfExp, ast.Lambda, ast.ListComp, ast.SetComp, ast.DictComp,
+                                     ast.GeneratorExp)):
+                    if self.contains_helper(node):
+                        raise Refuse('%s: helper call in a conditionally evaluated position: %s'
+                                     % (self.coq_name, ast.unparse(node)))
+                    return node
+                return super().generic_visit(node)
+
+            def visit_Call(s2, node):
+                if s2.found is not None:
+                    return node
+                # arguments are evaluated before the call itself
+                node = s2.generic_visit(node)
+                if s2.found is not None:
+                    return node
+                if self.helper_of(node) is not None:
+                    self.fresh += 1
+                    name = '__h%d' % self.fresh
+                    s2.found = (name, node)
+                    return ast.Name(id=name, ctx=ast.Load())
+                return node
+        f = Finder()
+        new = f.visit(copy.deepcopy(expr))
+        if f.found is None:
+            return None
+        return f.found[0], f.found[1], ast.fix_missing_locations(new)
 
     # ---- conditions
     def cond(self, n, env):
@@ -81,10 +254,12 @@ class Fn:
                 if isinstance(op, neg):
                     m = ast.Compare(left=n.left, ops=[pos()], comparators=n.comparators)
                     return '(CNeg %s)' % self.cond_s(ast.fix_missing_locations(m))
-            if isinstance(op, ast.In) and isinstance(n.comparators[0], (ast.List, ast.Tuple)):
+            if isinstance(op, ast.In) and isinstance(n.comparators[0], (ast.List, ast.Tuple, ast.Set)):
                 # x in [a, b]  ==  x == a or x == b
                 alts = [ast.Compare(left=n.left, ops=[ast.Eq()], comparators=[e])
                         for e in n.comparators[0].elts]
+                if not alts:
+                    return 'CF'
                 xs = [self.cond_s(ast.fix_missing_locations(a)) for a in alts]
                 out = xs[-1]
                 for x in reversed(xs[:-1]):
@@ -101,6 +276,41 @@ class Fn:
                     return 'CT' if n.left.value == n.comparators[0].value else 'CF'
         raise Refuse('%s: condition not in atom map: %s' % (self.coq_name, s))
 
+    def branch(self, test, env, kt, kf):
+        """decision on a condition that may contain helper calls: and/or/not are followed structurally (short
+        circuit preserved), helper calls are inlined, anything else is an atom condition"""
+        return self.branch_s(self.sub(test, env), kt, kf)
+
+    def branch_s(self, test, kt, kf):
+        if isinstance(test, ast.BoolOp) and self.contains_helper(test):
+            first, rest = test.values[0], test.values[1:]
+            more = rest[0] if len(rest) == 1 else ast.BoolOp(op=test.op, values=rest)
+            if isinstance(test.op, ast.And):
+                return self.branch_s(first, lambda: self.branch_s(more, kt, kf), kf)
+            return self.branch_s(first, kt, lambda: self.branch_s(more, kt, kf))
+        if isinstance(test, ast.UnaryOp) and isinstance(test.op, ast.Not) and self.contains_helper(test):
+            return self.branch_s(test.operand, kf, kt)
+        if isinstance(test, ast.Call) and self.helper_of(test) is not None:
+            return self.inline(self.helper_of(test), test, lambda v: self.branch_value(v, kt, kf))
+        if self.contains_helper(test):
+            h = self.hoist(test, {})
+            if h is None:
+                raise Refuse('%s: cannot place helper call in %s' % (self.coq_name, ast.unparse(test)))
+            name, call, new = h
+            return self.inline(self.helper_of(call), call, lambda v: self.branch_s(
+                self.sub(new, {name: v if v is not None else ast.Constant(value=None)}), kt, kf))
+        return self.branch_value(test, kt, kf)
+
+    def branch_value(self, v, kt, kf):
+        if v is None:
+            return kf()
+        c = self.cond_s(v)
+        if c == 'CT':
+            return kt()
+        if c == 'CF':
+            return kf()
+        return '(DIf %s %s %s)' % (c, kt(), kf())
+
     # ---- statements
     def skip(self, s):
         if isinstance(s, ast.Expr) and isinstance(s.value, ast.Constant):
@@ -110,11 +320,9 @@ class Fn:
         text = ast.unparse(s)
         return any(text.startswith(p) for p in self.ignore)
 
-    def ret(self, value, env):
-        if value is None:
-            text = 'None'
-        else:
-            text = ast.unparse(self.sub(value, env))
+    def ret_node(self, node):
+        """node: an already substituted value (or None)"""
+        text = 'None' if node is None else ast.unparse(node)
         if text.startswith('__bound_'):
             parts = text.split('_')
             idx, truth = int(parts[3]), parts[4]
@@ -125,14 +333,25 @@ class Fn:
             raise Refuse('%s: unknown return value: %s' % (self.coq_name, text))
         return '(DRet %d)' % self.rets[text]
 
-    def block(self, stmts, env, k):
+    def block(self, stmts, env, k, kret=None):
+        if kret is None:
+            kret = self.ret_node
         if not stmts:
             return k(env)
         s, rest = stmts[0], stmts[1:]
         if self.skip(s):
-            return self.block(rest, env, k)
+            return self.block(rest, env, k, kret)
         if isinstance(s, ast.Return):
-            return self.ret(s.value, env)
+            if s.value is None:
+                return kret(None)
+            val = self.sub(s.value, env)
+            if isinstance(val, ast.Call) and self.helper_of(val) is not None:
+                return self.inline(self.helper_of(val), val, kret)
+            if self.contains_helper(val):
+                name, call, new = self.hoist(val, {})
+                return self.inline(self.helper_of(call), call, lambda v: self.block(
+                    [ast.Return(value=new)], {name: v if v is not None else ast.Constant(value=None)}, k, kret))
+            return kret(val)
         if isinstance(s, ast.Raise):
             if s.exc is None:
                 raise Refuse('%s: bare raise' % self.coq_name)
@@ -141,6 +360,10 @@ class Fn:
                 if text.startswith(p):
                     return '(DRaise %d)' % tag
             raise Refuse('%s: unknown raise: %s' % (self.coq_name, text))
+        if isinstance(s, ast.Expr) and isinstance(s.value, ast.Call):
+            val = self.sub(s.value, env)
+            if self.helper_of(val) is not None:
+                return self.inline(self.helper_of(val), val, lambda v: self.block(rest, env, k, kret))
         if isinstance(s, ast.Assign) and len(s.targets) == 1 and isinstance(s.targets[0], ast.Name):
             name = s.targets[0].id
             val = self.sub(s.value, env)
@@ -151,22 +374,38 @@ class Fn:
                 for truth in (True, False):
                     env2 = dict(env)
                     env2[name] = Bound(text, idx, truth)
-                    outs.append(self.block(rest, env2, k))
+                    outs.append(self.block(rest, env2, k, kret))
                 return '(DIf (CA %d) %s %s)' % (idx, outs[0], outs[1])
+            if isinstance(val, ast.Call) and self.helper_of(val) is not None:
+                def after(v):
+                    env2 = dict(env)
+                    env2[name] = v if v is not None else ast.Constant(value=None)
+                    return self.block(rest, env2, k, kret)
+                return self.inline(self.helper_of(val), val, after)
+            if self.contains_helper(val):
+                hname, call, new = self.hoist(val, {})
+
+                def after2(v):
+                    env2 = dict(env)
+                    env2[hname] = v if v is not None else ast.Constant(value=None)
+                    return self.block([ast.Assign(targets=s.targets, value=new)] + list(rest), env2, k, kret)
+                return self.inline(self.helper_of(call), call, after2)
             env2 = dict(env)
             env2[name] = val
-            return self.block(rest, env2, k)
+            return self.block(rest, env2, k, kret)
         if isinstance(s, ast.If):
-            c = self.cond(s.test, env)
-
             def kk(e2):
-                return self.block(rest, e2, k)
+                return self.block(rest, e2, k, kret)
+            if self.contains_helper(self.sub(s.test, env)):
+                return self.branch(s.test, env, lambda: self.block(s.body, env, kk, kret),
+                                   lambda: self.block(s.orelse, env, kk, kret))
+            c = self.cond(s.test, env)
             if c == 'CT':
-                return self.block(s.body, env, kk)
+                return self.block(s.body, env, kk, kret)
             if c == 'CF':
-                return self.block(s.orelse, env, kk)
-            return '(DIf %s %s %s)' % (c, self.block(s.body, env, kk),
-                                       self.block(s.orelse, env, kk))
+                return self.block(s.orelse, env, kk, kret)
+            return '(DIf %s %s %s)' % (c, self.block(s.body, env, kk, kret),
+                                       self.block(s.orelse, env, kk, kret))
         if isinstance(s, ast.Try):
             # try: x = ATOM  except E: A  else: B      (ATOM raises exactly raising[ATOM])
             if len(s.body) == 1 and isinstance(s.body[0], ast.Assign) and \
@@ -184,12 +423,12 @@ class Fn:
                     caught = bool(set(classes) & sup.get(exc, {'XException', 'XBaseException'}))
 
                     def kk(e2):
-                        return self.block(rest, e2, k)
+                        return self.block(rest, e2, k, kret)
                     env_ok = dict(env)
                     env_ok[s.body[0].targets[0].id] = val
-                    ok_branch = self.block(s.orelse, env_ok, kk) if s.orelse else kk(env_ok)
+                    ok_branch = self.block(s.orelse, env_ok, kk, kret) if s.orelse else kk(env_ok)
                     if caught:
-                        bad_branch = self.block(s.handlers[0].body, env, kk)
+                        bad_branch = self.block(s.handlers[0].body, env, kk, kret)
                     else:
                         if exc not in self.raises:
                             raise Refuse('%s: uncaught %s has no tag' % (self.coq_name, exc))
@@ -217,13 +456,87 @@ class Fn:
             self.coq_name, tree, self.coq_name, n)
 
 
+def within(node, root):
+    return any(n is node for n in ast.walk(root))
+
+
+def inert_block(root, scope, what, depth):
+    """names assigned inside root; refuses anything that could change what the caller does afterwards"""
+    if depth > 3:
+        raise Refuse('%s: helper nesting too deep' % what)
+    assigned = set()
+    top = root
+    for n in ast.walk(root):
+        if isinstance(n, (ast.Assign, ast.AugAssign, ast.AnnAssign)):
+            for t in (n.targets if isinstance(n, ast.Assign) else [n.target]):
+                if not isinstance(t, ast.Name):
+                    raise Refuse('%s assigns to %s' % (what, ast.unparse(t)))
+                assigned.add(t.id)
+        if isinstance(n, (ast.Raise, ast.Delete, ast.Global, ast.Nonlocal, ast.Yield, ast.YieldFrom, ast.Await)):
+            raise Refuse('%s contains %s' % (what, type(n).__name__))
+        if isinstance(n, ast.Return) and depth == 0:
+            raise Refuse('%s contains Return' % what)
+        if isinstance(n, (ast.For, ast.While, ast.With, ast.NamedExpr)):
+            raise Refuse('%s contains %s' % (what, type(n).__name__))
+        if isinstance(n, ast.ExceptHandler) and n.name:
+            assigned.add(n.name)
+        if isinstance(n, ast.Call):
+            h = scope.lookup(n.func)
+            if h is not None:
+                inert_block(ast.Module(body=h.body, type_ignores=[]), scope, '%s: helper %s' % (what, h.name), depth + 1)
+            elif isinstance(n.func, ast.Attribute) and isinstance(n.func.value, ast.Name) and \
+                    n.func.value.id in ('self', 'cls'):
+                raise Refuse('%s calls %s' % (what, ast.unparse(n.func)))
+    return assigned
+
+
+def splice_helpers(stmts, scope, what):
+    """straight-line statements with calls `x = self.h(..)` / `self.h(..)` to helpers of the class replaced by the
+    helper's body (single trailing return), parameters substituted -- so that extracting part of a fixed
+    prefix into a method leaves the prefix as it was"""
+    out = []
+    for st in stmts:
+        call, target = None, None
+        if isinstance(st, ast.Assign) and len(st.targets) == 1 and isinstance(st.targets[0], ast.Name) and \
+                isinstance(st.value, ast.Call):
+            call, target = st.value, st.targets[0].id
+        elif isinstance(st, ast.Expr) and isinstance(st.value, ast.Call):
+            call = st.value
+        h = scope.lookup(call.func) if call is not None else None
+        if h is None or ast.unparse(call) == 'self.load_rules()':
+            out.append(st)
+            continue
+        body = [x for x in h.body if not (isinstance(x, ast.Expr) and isinstance(x.value, ast.Constant))]
+        rets = [n for x in body for n in ast.walk(x) if isinstance(n, ast.Return)]
+        if len(rets) > 1 or (rets and rets[0] is not body[-1]):
+            out.append(st)      # not straight-line: left for the checks that follow to judge
+            continue
+        f = Fn(what, {}, {}, {}, scope=scope)
+        env = f.bind(h, call)
+        local = {n.id for x in body for n in ast.walk(x) if isinstance(n, ast.Name) and isinstance(n.ctx, ast.Store)}
+        for p, v in list(env.items()):
+            if p in local:
+                if not (isinstance(v, ast.Name) and v.id == p):
+                    raise Refuse('%s: helper %s rebinds parameter %s' % (what, h.name, p))
+                del env[p]
+        new = [ast.fix_missing_locations(Subst(env).visit(copy.deepcopy(x))) for x in (body[:-1] if rets else body)]
+        out += splice_helpers(new, scope, what)
+        if rets and target is not None:
+            rv = rets[0].value
+            rv = ast.fix_missing_locations(Subst(env).visit(copy.deepcopy(rv))) if rv is not None else ast.Constant(value=None)
+            if not (isinstance(rv, ast.Name) and rv.id == target):
+                out.append(ast.fix_missing_locations(ast.Assign(targets=[ast.Name(id=target, ctx=ast.Store())], value=rv)))
+    return out
+
+
 def gen_trees(mod):
     out = ''
     rules = find_class(mod, 'Rules')
     enf = find_class(mod, 'Enforcer')
 
     # ---- Rules.__missing__
-    f = Fn('missing_tree',
+    sc_rules, sc_enf, sc_mod = Scope(mod, rules), Scope(mod, enf), Scope(mod)
+    f = Fn('missing_tree', scope=sc_rules,
            atoms={'isinstance(self.default_rule, dict)': 0,
                   'self.default_rule': 1,
                   'isinstance(self.default_rule, _checks.BaseCheck)': 2,
@@ -234,7 +547,7 @@ def gen_trees(mod):
     out += f.translate(find_func(rules.body, '__missing__').body)
 
     # ---- Enforcer._enforce_scope
-    f = Fn('scope_tree',
+    f = Fn('scope_tree', scope=sc_enf,
            atoms={"creds.get('system')": 0,
                   "creds.get('domain_id')": 1,
                   "'system' in rule.scope_types": 2,
@@ -258,7 +571,7 @@ def gen_trees(mod):
             idx = i
     if idx is None:
         raise Refuse('enforce: dispatch on isinstance(rule, _checks.BaseCheck) not found')
-    prefix = body[:idx]
+    prefix = splice_helpers(body[:idx], sc_enf, 'enforce')
     want_prefix = [
         'self.load_rules()',
         None,   # the credential type gate, checked below
@@ -284,24 +597,22 @@ def gen_trees(mod):
     if not (isinstance(dbg, ast.If) and ast.unparse(dbg.test) == 'LOG.isEnabledFor(logging.DEBUG)'
             and not dbg.orelse):
         raise Refuse('enforce: debug block has an unknown shape')
-    assigned = set()
-    for n in ast.walk(dbg):
-        if isinstance(n, (ast.Assign, ast.AugAssign, ast.AnnAssign)):
-            for t in (n.targets if isinstance(n, ast.Assign) else [n.target]):
-                if not isinstance(t, ast.Name):
-                    raise Refuse('enforce: debug block assigns to %s' % ast.unparse(t))
-                assigned.add(t.id)
-        if isinstance(n, (ast.Return, ast.Raise, ast.Delete, ast.Global, ast.Nonlocal)):
-            raise Refuse('enforce: debug block contains %s' % type(n).__name__)
-        if isinstance(n, ast.ExceptHandler) and n.name:
-            assigned.add(n.name)
-    if not assigned <= {'creds_dict', 'creds_msg', 'target_dict', 'target_msg', 'e'}:
-        raise Refuse('enforce: debug block assigns to %s' % sorted(assigned))
+    # the debug block may compute whatever it likes into names nothing else uses; it may not return, raise,
+    # delete, or write through anything; helpers of the class it calls must be just as inert
+    assigned = inert_block(dbg, sc_enf, 'enforce: debug block', 0)
+    a = enforce.args
+    protected = {x.arg for x in a.args + a.kwonlyargs + a.posonlyargs}
+    protected |= {x.arg for x in (a.vararg, a.kwarg) if x is not None}
+    for n in ast.walk(enforce):
+        if isinstance(n, ast.Name) and isinstance(n.ctx, ast.Store) and not within(n, dbg):
+            protected.add(n.id)
+    if assigned & protected:
+        raise Refuse('enforce: debug block assigns to %s' % sorted(assigned & protected))
     chk_obj = '_checks._check(rule=rule, target=target, creds=creds, enforcer=self, current_rule=None)'
     chk_name = '_checks._check(rule=self.rules[rule], target=target, creds=creds, enforcer=self, current_rule=rule)'
     sc_obj = 'self._enforce_scope(creds, rule, do_raise=do_raise)'
     sc_name = 'self._enforce_scope(creds, self.registered_rules.get(rule), do_raise=do_raise)'
-    f = Fn('enforce_tree',
+    f = Fn('enforce_tree', scope=sc_enf,
            atoms={'isinstance(rule, _checks.BaseCheck)': 0,
                   'rule.scope_types': 1,
                   sc_obj: 2,
@@ -324,7 +635,7 @@ def gen_trees(mod):
     out += f.translate(body[idx:])
 
     # ---- Enforcer.authorize
-    f = Fn('authorize_tree',
+    f = Fn('authorize_tree', scope=sc_enf,
            atoms={'rule in self.registered_rules': 0},
            rets={'self.enforce(rule, target, creds, do_raise, exc, *args, **kwargs)': 0},
            raises={'PolicyNotRegistered(rule)': 0})
@@ -332,7 +643,7 @@ def gen_trees(mod):
 
     # ---- Enforcer._handle_deprecated_rule
     fr = 'self.file_rules[default.deprecated_rule.name]'
-    f = Fn('deprecated_tree',
+    f = Fn('deprecated_tree', scope=sc_enf,
            atoms={'default.deprecated_rule.name == default.name': 0,
                   'default.deprecated_rule.name in self.file_rules': 1,
                   fr + '.check == default.deprecated_rule.check': 2,
@@ -351,7 +662,7 @@ def gen_trees(mod):
 
     # ---- pick_default_policy_file
     loc = "conf.get_location('policy_file', 'oslo_policy').location"
-    f = Fn('pick_tree',
+    f = Fn('pick_tree', scope=sc_mod,
            atoms={"conf.oslo_policy.policy_file == 'policy.yaml'": 0,
                   'fallback_to_json_file': 1,
                   'conf.find_file(conf.oslo_policy.policy_file)': 2,
